@@ -38,7 +38,15 @@ W = 'circus.watcher:Watcher.'
 
 
 def check(run, ctx):
-    run.each(ctx, [r1, r2, r3, r4, r5, r6])
+    run.each(ctx, [r1, r2, r3, r4, r5, r6, r7])
+
+
+def r7(run, ctx):
+    from rules import c03
+    run.share(ctx, c03.r5_standalone, 'R5', 'R7', 'the final SIGKILL reaches the worker and its '
+              'descendants whatever happens to single children (shared with C03 R5): the '
+              'shutdown waits in the reap loop for every worker, so a lost SIGKILL means circusd '
+              'never exits and leaves its pid file and unix sockets behind')
 
 
 def r1(run, ctx):
